@@ -558,6 +558,14 @@ pub fn generate(rs: u64, focus: &str) -> Trace {
                 ids.push(*g.rng.pick(&retr));
             }
             g.rng.shuffle(&mut ids);
+            if g.rng.chance(1, 6) {
+                // a long id list: dozens of ids nobody has, spread between the interesting ones
+                let pad = g.rng.range(60, 140) as usize;
+                for _ in 0..pad {
+                    let pos = g.rng.usize(ids.len() + 1);
+                    ids.insert(pos, g.rng.bytes32());
+                }
+            }
             let q = match g.rng.below(3) {
                 0 | 1 => QuerySpec { ids: ids.clone(), ..QuerySpec::all_allowed() },
                 _ => QuerySpec { authors: g.authors.clone(), ..QuerySpec::all_allowed() },
